@@ -318,6 +318,8 @@ def stubs():
         return f
 
     def array(v, dtype=None, copy=True, **kw):
+        if isinstance(v, (list, tuple)) and any(not isinstance(x, (int, float, bool, list, tuple, Arr)) for x in v):
+            return list(v)          # an object array: a sequence of the same objects
         if isinstance(v, Arr):
             d = _norm_dtype(dtype)
             if d is None or d == v.dtype:
@@ -372,7 +374,23 @@ def stubs():
                 return Arr(a.shape, [op(v) for v in a.tolist_flat()], list(range(a.size)), 'float' if op is not abs else a.dtype)
             return op(a)
         return f
+    def argsort(a, **kw):
+        import functools
+        vals = a.tolist_flat() if isinstance(a, Arr) else list(a)
+
+        def cmp(i, j):
+            x, y = vals[i], vals[j]
+            if isinstance(x, orders.Obj):
+                if x.call('__lt__', y):
+                    return -1
+                if y.call('__lt__', x):
+                    return 1
+                return 0
+            return -1 if x < y else (1 if y < x else 0)
+        return sorted(range(len(vals)), key=functools.cmp_to_key(cmp))      # stable, as numpy's default is on short inputs
+
     return {
+        'argsort': argsort,
         'zeros': alloc(0.0), 'ones': alloc(1.0), 'empty': alloc(0.0), 'full': full,
         'zeros_like': like(0.0), 'ones_like': like(1.0), 'empty_like': like(0.0),
         'array': array, 'asarray': asarray, 'asanyarray': asarray, 'ascontiguousarray': asarray,
